@@ -104,11 +104,30 @@ DTD_DECLS = ('<!ELEMENT a (b|c)*> <!ELEMENT p:a (b|c)*> <!ELEMENT c (a)*> <!ELEM
              '<!ELEMENT b ANY> <!ELEMENT d (#PCDATA|a|b)*>')
 
 
+ID_DECLS = " ".join('<!ATTLIST %s id ID #IMPLIED>' % q for q in ["a", "b", "c", "d", "p:a", "p:b", "r:a"])
+ID_TOKENS = ["x", "yz", "y", "xy", "xyz", "yzx", "x_y", "yx"]
+
+
+def add_ids(r, doc):
+    """give some elements an id attribute (declared ID by the DTD of render_doc(dtd="ids")); the tokens are strings the
+    document's text nodes (and their concatenations once whitespace is stripped) spell"""
+    pool = r.shuffle(ID_TOKENS)
+
+    def go(n):
+        if n[0] != "elem":
+            return n
+        attrs = list(n[3])
+        if n[1] is not None and pool and r.chance(2, 3):
+            attrs.append(("id", pool.pop()))
+        return ("elem", n[1], [go(c) for c in n[2]], attrs)
+    return go(doc)
+
+
 def render_doc(doc, number=True, dtd=False):
     out = ['<?xml version="1.0" encoding="UTF-8"?>']
     if dtd:
         root = [c for c in doc[2] if c[0] == "elem"][0]
-        out.append("<!DOCTYPE %s [ %s ]>" % (qn(root[1], DOC_PREFIX), DTD_DECLS))
+        out.append("<!DOCTYPE %s [ %s ]>" % (qn(root[1], DOC_PREFIX), ID_DECLS if dtd == "ids" else DTD_DECLS))
     counter = [0]
     for c in doc[2]:
         render_node(c, out, number, counter)
@@ -533,6 +552,23 @@ BODIES = [
      '<xsl:template match="node()[1]" mode="p" priority="1"><first p="{position()}" l="{last()}"/></xsl:template>\n'
      '<xsl:template match="node()[position() = last()]" mode="p" priority="2"><lastn p="{position()}" l="{last()}"/></xsl:template>\n'
      '<xsl:template match="*/text()[2]" mode="p" priority="3"><t2/></xsl:template>\n'),
+    # key() with node-set arguments (one lookup per member with the member's string value), key tables whose use
+    # expression is a node-set / a string built from stripped content
+    ("key-nodeset-arg", OUT_XML +
+     '<xsl:key name="sv" match="*" use="."/>\n<xsl:key name="ch" match="*" use="*"/>\n'
+     '<xsl:key name="tx" match="*" use="text()"/>\n<xsl:key name="cc" match="*" use="concat(., \'|\', count(node()))"/>\n'
+     '<xsl:key name="nd" match="node()" use=".."/>\n'
+     '<xsl:template match="/"><o all="{count(key(\'sv\', //*))}" allt="{count(key(\'tx\', //*))}"><xsl:for-each select="//*">'
+     '<e n="{@n}" c1="{count(key(\'sv\', *))}" c2="{count(key(\'sv\', . | following-sibling::*))}" c3="{count(key(\'sv\', ..))}" '
+     'c4="{count(key(\'ch\', *))}" c5="{count(key(\'ch\', . | *))}" c6="{count(key(\'tx\', node()))}" '
+     'c7="{count(key(\'cc\', concat(., \'|\', count(node()))))}" c8="{count(key(\'sv\', string(.)))}" '
+     'c9="{count(key(\'nd\', . | *))}" f="{key(\'sv\', * | text())[1]/@n}"/></xsl:for-each></o></xsl:template>\n'),
+    # id(): a node-set argument is the whitespace-separated list of the members' string values (documents of this body
+    # get ID attributes and a DTD declaring them)
+    ("id-fn", OUT_XML +
+     '<xsl:template match="/"><o><xsl:for-each select="//*"><e n="{@n}" i="{count(id(.))}" j="{count(id(*))}" '
+     'k="{count(id(node()))}" t="{count(id(text()))}" f="{id(.)[1]/@n}" s="{count(id(string(.)))}" '
+     'u="{count(id(. | following-sibling::*))}"/></xsl:for-each></o></xsl:template>\n'),
     ("copy-shallow", OUT_XML +
      '<xsl:template match="/"><o><xsl:for-each select="//node()"><xsl:copy/>|</xsl:for-each></o></xsl:template>\n'),
 ]
@@ -824,6 +860,13 @@ def copy_body(e):
 
 def key_body(m, use, lit):
     sel = "concat(count(key('k', %s)), '|', key('k', %s))" % (xp_lit(lit), xp_lit(lit))
+    return (OUT_TEXT + '<xsl:key name="k" match="%s" use="%s"/>\n' % (xml_attr_escape(pat_xpath(m)), xml_attr_escape(expr_xpath(use)))
+            + '<xsl:template match="/"><xsl:value-of select="%s"/></xsl:template>\n' % xml_attr_escape(sel))
+
+
+def keyarg_body(m, use, arg):
+    a = expr_xpath(arg)
+    sel = "concat(count(key('k', %s)), '|', key('k', %s))" % (a, a)
     return (OUT_TEXT + '<xsl:key name="k" match="%s" use="%s"/>\n' % (xml_attr_escape(pat_xpath(m)), xml_attr_escape(expr_xpath(use)))
             + '<xsl:template match="/"><xsl:value-of select="%s"/></xsl:template>\n' % xml_attr_escape(sel))
 
